@@ -3,6 +3,7 @@ import json
 import os
 import vlib
 import vmcheck
+import gpcheck
 
 LEVEL = "model_checking"
 
@@ -25,18 +26,19 @@ def run(ck):
     ncases = cases_stage(ck, 40 if ck.tier == "quick" else 2000)
     ck.cov["conformance"]["evaluation_cases_model_states"] = cres.distinct
     ck.cov["conformance"]["evaluation_cases_events_validated"] = ncases
+    ngp = gpcheck.stage(ck)
     res, summ = vmcheck.mc_step(ck)
     rres, rsumm = vmcheck.mc_run(ck)
     stats, instrs = vmcheck.tv(ck)
-    ck.cov["evaluations"] = summ["cases"] + rsumm["cases"] + stats["events"]
+    ck.cov["evaluations"] = summ["cases"] + rsumm["cases"] + stats["events"] + ngp
     ck.cov["distinct_nontrivial"] = summ["cases"] - summ["cuts"] + rsumm["cases"]
     ck.cov["rule"] = ("MC_PushStep: every instruction x every footprint state over the boundary "
                       "alphabets (distinct by construction, each executes the instruction); "
                       "MC_PushRun: every program over the control-flow alphabet x stack limit x "
                       "step count; cases cut because a number leaves the phi/psi windows are not counted")
     ck.cov["exhaustive"] = True
-    ck.cov["checker_cmd"] = ("tlc MC_PushStep, MC_PushRun; vh vm-step-replay, vm-run-replay; "
-                             "vh vm-trace + tlc Trace_PushVM")
+    ck.cov["checker_cmd"] = ("tlc MC_PushStep, MC_PushRun, MC_PushGP; vh vm-step-replay, vm-run-replay, gp-replay; "
+                             "vh vm-trace + tlc Trace_PushVM; vh gp-trace + tlc Trace_PushGP")
     ck.assumptions += [
         "numbers compared only inside the phi/psi windows (DESIGN 3.2); cuts are counted",
         "L1: operands missing and destination full - fatal overflow or recoverable underflow",
@@ -49,5 +51,8 @@ def run(ck):
 def replay(ck, obj):
     if obj.get("regen", {}).get("cases"):
         cases_stage(ck, 1, first=obj["regen"]["run"], tag="one")
+        return
+    if obj.get("kind") == "gp-replay" or (obj.get("regen") or {}).get("gp"):
+        gpcheck.replay(ck, obj)
         return
     vmcheck.replay_one(ck, obj)
